@@ -236,3 +236,45 @@ package streamfilter
 //@   ensures[no-node] len(lookupResult.Value) == 0 ==> !found && res == nil
 //@   ensures[only-own-filter] found ==> typeis(res, *FilterResult) && forall(r, 0, len(res.(*FilterResult).UserFlow.Flow), (plain(res.(*FilterResult).UserFlow.Flow[r]) ==> ownFilterOK(res.(*FilterResult).UserFlow.Flow[r], APIStream)) && exists(k, 0, len(lookupResult.Value), exists(j, 0, len(lookupResult.Value[k].userFlows), res.(*FilterResult).UserFlow.Flow[r] == lookupResult.Value[k].userFlows[j])))
 //@   ensures[always-when-satisfied] forall(k, 0, len(lookupResult.Value), forall(j, 0, len(lookupResult.Value[k].userFlows), plain(lookupResult.Value[k].userFlows[j]) && unsampled(lookupResult.Value[k].userFlows[j]) && ownFilterOK(lookupResult.Value[k].userFlows[j], APIStream) ==> found && typeis(res, *FilterResult) && exists(r, 0, len(res.(*FilterResult).UserFlow.Flow), res.(*FilterResult).UserFlow.Flow[r] == lookupResult.Value[k].userFlows[j])))
+
+// ---- construction of the filter tree (load-order independence of C03). The trie is used through an abstract model:
+// fdecl: declared URL patterns, fval[p]: the node stored for pattern p, fbest(D, u): the pattern the trie's lookup picks for
+// u among D ("" when none). The lookup's reported NormalizedURL is NOT assumed to be that pattern (for a bare host found
+// through host/* it is not) - which is exactly why AddFlow must not rely on it alone.
+//@ ghost var fdecl gmap[string]bool
+//@ ghost var fval gmap[string]*FilterNode
+//@ ghost func fbest(d gmap[string]bool, u string) string
+//@ axiom[fbest-is-declared] forall(d, "gmap[string]bool", forall(u, string, fbest(d, u) != "" ==> d[fbest(d, u)]))
+//@ extern URLTree.Lookup
+//@   modifies nothing
+//@   ensures[none] fbest(fdecl, url) == "" ==> !result.Match && result.Value == nil
+//@   ensures[the-matched-node] fbest(fdecl, url) != "" ==> result.Match && result.Value == fval[fbest(fdecl, url)]
+//@ extern URLTree.InsertDeclaredURL
+//@   modifies fdecl, fval
+//@   ensures[stored] result == nil ==> forall(p, string, fdecl[p] <==> (old(fdecl)[p] || p == url)) && fval[url] == value && forall(p, string, p != url ==> fval[p] == old(fval)[p])
+//@   ensures[unchanged-on-error] result != nil ==> fdecl == old(fdecl) && fval == old(fval)
+//@ pure FlowI.GetType
+//@ extern newFilterRequirements
+//@   modifies nothing
+// every node holds flows declared on its own pattern only, and holds at least one
+//@ ghost func urlOf(flow internaltypes.FlowI) string = flt(flow).URL
+//@ ghost func nodeOn(n *FilterNode, p string) bool = n != nil && allocated(n) && len(n.userFlows) + len(n.systemFlowStart) + len(n.systemFlowEnd) > 0 && forall(j, 0, len(n.userFlows), fltOK(n.userFlows[j]) && urlOf(n.userFlows[j]) == p) && forall(j, 0, len(n.systemFlowStart), fltOK(n.systemFlowStart[j]) && urlOf(n.systemFlowStart[j]) == p) && forall(j, 0, len(n.systemFlowEnd), fltOK(n.systemFlowEnd[j]) && urlOf(n.systemFlowEnd[j]) == p)
+//@ ghost func treeOwn() bool = forall(p, string, fdecl[p] ==> nodeOn(fval[p], p))
+//@ ghost func treeDistinct() bool = forall(p, string, forall(q, string, fdecl[p] && fdecl[q] && p != q ==> fval[p] != fval[q]))
+
+//@ func (*FilterNode).isDeclaredOn
+//@   prop C03
+//@   requires node != nil && forall(j, 0, len(node.userFlows), fltOK(node.userFlows[j])) && forall(j, 0, len(node.systemFlowStart), fltOK(node.systemFlowStart[j])) && forall(j, 0, len(node.systemFlowEnd), fltOK(node.systemFlowEnd[j]))
+//@   modifies nothing
+//@   ensures[some-flow-on-this-url] result ==> (len(node.userFlows) > 0 && urlOf(node.userFlows[0]) == url) || (len(node.systemFlowStart) > 0 && urlOf(node.systemFlowStart[0]) == url) || (len(node.systemFlowEnd) > 0 && urlOf(node.systemFlowEnd[0]) == url)
+
+// A flow joins the node of its own URL pattern, or gets a node of its own: afterwards every node still holds only flows
+// declared on the node's pattern, whatever was loaded before - so what a node answers does not depend on the load order.
+//@ func (*FilterTree).AddFlow
+//@   prop C03
+//@   requires f != nil && f.tree != nil && fltOK(flow) && treeOwn() && treeDistinct()
+//@   requires flow.GetType() == internaltypes.UserFlow || flow.GetType() == internaltypes.SystemFlowStart || flow.GetType() == internaltypes.SystemFlowEnd
+//@   modifies fdecl, fval, allof(FilterNode.userFlows), allof(FilterNode.systemFlowStart), allof(FilterNode.systemFlowEnd)
+//@   allocates FilterNode
+//@   ensures[joins-only-its-own-url] result == nil ==> treeOwn()
+//@   ensures[no-shared-node] result == nil ==> treeDistinct()
